@@ -1233,7 +1233,7 @@ func checkNameToFileInjective(w *World, r *Report) {
 							found, where = true, full+" at "+w.posOf(x.Pos())
 						}
 					}
-					if g := x.Call.StaticCallee(); g != nil && g.Pkg != nil && g.Pkg.Pkg.Path() == twigPath && len(g.Blocks) > 0 {
+					if g := x.Call.StaticCallee(); g != nil && isTwigFn(g) && len(g.Blocks) > 0 {
 						// a path helper of the package: its results
 						instrsOf(g, func(gi ssa.Instruction) {
 							if ret, ok := gi.(*ssa.Return); ok {
